@@ -69,6 +69,17 @@ def handle (args : List String) : Verdict :=
       { agree := ok, propOk := ok, tag := "covrad",
         msg := s!"COVRAD {String.ofList s}: {a} ang -> nm ok={okNm} bohr ok={okBohr}" }
     | _, _, _, _ => bad "covrad fields"
+  | ["place", hl, kind, m, e] =>
+    match parseRat2 m e with
+    | none => bad "place value"
+    | some v =>
+      let ok := placeOK kind v
+      let label := str (unhex hl)
+      let msg := s!"UNIT-PLACE {label}: effective factor {v} is not the {kind} conversion {(placeRef kind).getD 0} to four digits"
+      ({ agree := ok, propOk := ok, msg := msg, tag := "place:" ++ kind } : Verdict)
+  | ["placeerr", hl, hw] =>
+    let msg := s!"the probe file for {str (unhex hl)} was refused: {str (unhex hw)}"
+    ({ agree := false, propOk := true, msg := msg, tag := "place:refused" } : Verdict)
   | _ => bad "unknown op"
 
 end Driver.C20
